@@ -251,6 +251,13 @@ bool Interp::exec_coll(Interp &I, const Stmt &s)
             I.env[s.dst] = PortVal{out.template as<S_PAIR>().erased(), PT::Other, "pair"};
             return true;
         }
+        if (a.size() == 2 && s.kws("out") == "tss")
+        {
+            // branches returning a SET: the switch owns a collection-valued output
+            out = wire<stdlib::switch_>(w, I.pi(a.at(0)), sc, I.pi(a.at(1)));
+            I.env[s.dst] = PortVal{out.template as<S_TSS>().erased(), PT::Other, "tss"};
+            return true;
+        }
         if (a.size() == 1) out = wire<stdlib::switch_>(w, I.pi(a.at(0)), sc);
         else if (a.size() == 2) out = wire<stdlib::switch_>(w, I.pi(a.at(0)), sc, I.pi(a.at(1)));
         else if (a.size() == 3) out = wire<stdlib::switch_>(w, I.pi(a.at(0)), sc, I.pi(a.at(1)), I.pi(a.at(2)));
@@ -288,6 +295,13 @@ bool Interp::exec_coll(Interp &I, const Stmt &s)
             auto out = wire<stdlib::if_cmp>(w, cmp, Port<S>{w, x.ref}, Port<S>{w, y.ref}, Port<S>{w, z.ref});
             I.env[s.dst] = PortVal{out.template as<S>().erased(), x.type, x.shape};
         });
+        return true;
+    }
+    if (s.op == "toset")
+    {
+        // toset <int ts> uid=<u> mod=<m> acc=0|1: TS<Int> -> TSS<Int> (see VToSet)
+        auto out = wire<VToSet>(w, I.pi(a.at(0)), uid, Int{s.kwi("mod", 8)}, Int{s.kwi("acc", 1)});
+        I.env[s.dst] = PortVal{out.erased(), PT::Other, "tss"};
         return true;
     }
     if (s.op == "crecord" && !s.kwi("sparse", 0))
